@@ -37,7 +37,7 @@ def run(ctx):
     ctx.trusted += [
         "translator harness/cmd/c04 extract (go/ast over semantic/checker.go, semantic/semantic.go, main.go, sdk/invoke.go)",
         "harness/cmd/c04: encoding of parser.Thrift into the model's Program (encode.go), classification of process observations",
-        "OS process semantics (exit status, files under the working directory), 20 s (retried 120 s) as 'hang'",
+        "OS process semantics (exit status, files under the working directory); 'hang' = no exit within 20 s and, run again, within 300 s",
     ]
     ctx.assumptions += [
         "syntax (PEG + walker), include search, flag parsing, backend selection/options and backend constant typing are "
